@@ -1864,3 +1864,13 @@ Example repaired_flags_F2 :
   s_rnz (x_efc (run_builders allfix false (mkCaps 3 3 0 0) true [5;5;5] [7;7;7] 0 rq)) = [2; 2; 0] /\
   x_word (run_builders allfix false (mkCaps 3 4 0 0) true [5;5;5] [7;7;7] 0 rq) = 0.
 Proof. vm_compute. auto. Qed.
+
+(* the old witnesses of never_silent_refuted_nnz_contact / _inexact under the repaired scheme *)
+Example repaired_flags_contact_inexact :
+  let rq1 := mkReqs [mkT contact_like [mkQ 6 0 4 6 6]; mkT contact_like [mkQ 6 1 4 6 6]; mkT contact_like [mkQ 6 2 4 6 6]] [] [] [] in
+  let rq2 := mkReqs [mkT inexact_like [mkQ 0 0 0 2 2]; mkT inexact_like [mkQ 0 1 0 2 1]] [] [] [] in
+  x_word (run_builders allfix false (mkCaps 64 71 0 0) true (repeat 0 64) (repeat 0 64) 0 rq1) = 2 /\
+  x_word (run_builders allfix false (mkCaps 64 72 0 0) true (repeat 0 64) (repeat 0 64) 0 rq1) = 0 /\
+  x_word (run_builders allfix false (mkCaps 2 3 0 0) true [0;0] [0;0] 0 rq2) = 2 /\
+  x_word (run_builders allfix false (mkCaps 2 4 0 0) true [0;0] [0;0] 0 rq2) = 0.
+Proof. vm_compute. auto. Qed.
